@@ -3,7 +3,7 @@
 MC:   specs/http/ClientQueue.tla for every queue of server scripts up to 3 (quick) / 4 requests, plain and secure client:
       OneAtATime, FifoOneToOne, WireInQueueOrder, RedirectTransparent, NoDowngrade, EveryRequestAnswered.
 S->C: every queue is executed on a real http.Client whose tcp connectors get scripted sockets, against a scripted peer
-      that follows the scripts (answers at once / some rounds later / redirects with relative or absolute Location, to the
+      that follows the scripts (answers at once / some rounds later / with 201 Created and a Location field / redirects with relative or absolute Location, to the
       same or another server, two hops, https -> http / closes before or in the middle of its answer); the peer checks
       that it never sees a request while an earlier one is unanswered; the response queue (originating request, error
       flag, redirect history) and the sequence of requests on the wire are compared with the model's.
@@ -85,6 +85,10 @@ def execute(queue, secure, make="scheme", slow=False, late=False):
                     if s == "ok":
                         rig.answer(ok(rid))
                         outstanding -= 1
+                    elif s == "created":
+                        # a final answer that is NOT a redirect but carries a Location field (201 Created): nothing to follow
+                        rig.answer(ok(rid).replace(b"200 OK\r\n", b"201 Created\r\nLocation: " + nxt + b"\r\n", 1))
+                        outstanding -= 1
                     elif s == "delay":
                         delayed.append([3, ok(rid)])
                     elif s == "bad-location":
@@ -120,7 +124,7 @@ def execute(queue, secure, make="scheme", slow=False, late=False):
                                     type(rq["reply"]) is not type(TAGS[(rid - 1) % len(TAGS)])):
                 problems.append("the response to request %d does not carry the tag %r given with it: %r" % (
                     rid, TAGS[(rid - 1) % len(TAGS)], rq.get("reply", "no reply entry")))
-            if rid is not None and not r.get("errored") and r.get("status") == 200:
+            if rid is not None and not r.get("errored") and r.get("status") in (200, 201):
                 hd = {k.lower(): v for k, v in (r.get("headers") or {}).items()}
                 if bytes(r.get("body") or b"") != b"answer-%d" % rid:
                     problems.append("the response to request %d has body %r" % (rid, bytes(r.get("body") or b"")))
@@ -157,7 +161,8 @@ def judge(rec, real, secure):
     if got != want:
         return "%s: response queue is %s, should be %s" % (desc, got, want)
     for r in real["responses"]:
-        if r["kind"] == "ok" and (r["status"] != 200 or any(s != 302 for s in r["redirect_statuses"])):
+        final = 201 if (r["rid"] and q[r["rid"] - 1] == "created") else 200
+        if r["kind"] == "ok" and (r["status"] != final or any(s != 302 for s in r["redirect_statuses"])):
             return "%s: response for request %s has status %s with redirect history %s" % (desc, r["rid"], r["status"], r["redirect_statuses"])
     wwant = [{"rid": w["rid"], "port": PORT[w["host"]], "hop": w["hop"]} for w in rec["wire"]]
     if real["wire"] != wwant:
@@ -166,7 +171,7 @@ def judge(rec, real, secure):
 
 
 def run(ctx):
-    scripts = {"ok", "delay", "redir-rel", "redir-abs", "redir-2", "redir-2bad", "redir-other", "redir-down", "close-before", "close-during"}
+    scripts = {"ok", "delay", "created", "redir-rel", "redir-abs", "redir-2", "redir-2bad", "redir-other", "redir-down", "close-before", "close-during"}
     inv = ["OneAtATime", "FifoOneToOne", "WireInQueueOrder", "RedirectTransparent", "NoDowngrade", "EveryRequestAnswered"]
     for secure in (False, True):
         r = ctx.tlc("http", "ClientQueue", core.cfg_text(constants={"Scripts": scripts, "MaxQ": 3 if ctx.quick else 4, "Secure": secure},
